@@ -15,6 +15,8 @@ import (
 	"context"
 	"crypto/tls"
 	"fmt"
+	"io"
+	"log"
 	"net"
 	"net/http"
 	"net/http/cookiejar"
@@ -54,7 +56,7 @@ func c19NewPeers() *c19Peers {
 	p.h1s.StartTLS()
 	p.h2c = httptest.NewServer(h2c.NewHandler(h, &http2.Server{}))
 	for _, s := range []*httptest.Server{p.h2, p.h1s} {
-		s.Config.ErrorLog = nil
+		s.Config.ErrorLog = log.New(io.Discard, "", 0) // handshake failures are part of the scenarios
 	}
 	return p
 }
